@@ -73,6 +73,11 @@ def sized_struct(r, name, total, placement):
         pos = {"first": 0, "middle": len(ws) // 2, "last": len(ws) - 1}[placement]
         ws[big], ws[pos] = ws[pos], ws[big]
         fields = [("f%d" % i, i * 2, scalar_of(r, w)) for i, w in enumerate(ws)]
+        if r.random() < 0.3:
+            # two fields with the SAME field id (the front end and the general checks accept that): both are
+            # part of the message and of its size
+            j = r.randrange(1, len(fields))
+            fields[j] = (fields[j][0], fields[j - 1][1], fields[j][2])
     elif placement == "nested":
         inner_w = r.randint(max(1, min(total - 1, total - 60)), total - 1)
         iw = split_bits(r, inner_w, min(3, inner_w))
